@@ -23,7 +23,7 @@ RULE_TEXT = ('runs = seeded random suite hierarchies (depth <= 3, <= 3 sub-suite
              'file); a fixed sweep assigns every verdict to a case of a one-suite and of a two-level hierarchy. Each '
              'plan runs with both reporters. Non-trivial = >= 2 cases or a structural fault; distinct = (hierarchy '
              'shape, listing styles, multiset of endings, structural fault).')
-REACH_PROBES = ['case_name_with_glob_characters_listed_in_quotes', 'launched_with_directory_argument', 'launched_from_another_directory', 'case_listed_twice_in_one_suite', 'case_listed_twice_ends_differently', 'section_reopened', 'suites_by_glob_of_directories', 'suites_by_glob_of_files', 'ending_processor_fails', 'verdict_PASS', 'verdict_FAIL', 'verdict_XFAIL', 'verdict_XPASS', 'verdict_SKIPPED',
+REACH_PROBES = ['invalid_not_text', 'case_name_with_glob_characters_listed_in_quotes', 'launched_with_directory_argument', 'launched_from_another_directory', 'case_listed_twice_in_one_suite', 'case_listed_twice_ends_differently', 'section_reopened', 'suites_by_glob_of_directories', 'suites_by_glob_of_files', 'ending_processor_fails', 'verdict_PASS', 'verdict_FAIL', 'verdict_XFAIL', 'verdict_XPASS', 'verdict_SKIPPED',
                 'verdict_VALIDATION_ERROR', 'verdict_HARD_ERROR', 'verdict_INTERNAL_ERROR', 'verdict_SYNTAX_ERROR',
                 'verdict_FILE_ACCESS_ERROR', 'ending_act_syntax', 'ending_unreadable', 'ending_timeout', 'all_ok',
                 'some_unsuccessful', 'sub_suite', 'depth_3', 'glob_listing', 'directory_reference', 'invalid_twice',
@@ -58,7 +58,7 @@ ENDING_NAMES = sorted(ENDINGS)
 # only for a case that is listed twice: its action ends differently the second time it is run (FAIL, then PASS)
 ENDINGS['FLAKY'] = ('[setup]\n% mark-{id}\n[act]\n% flaky-{id}\n[assert]\nexit-code == 0\n', 'FAIL', True)
 STRUCT_FAULTS = ['twice', 'twice_other_spelling', 'cycle', 'self', 'missing_suite', 'missing_case', 'syntax_root',
-                 'syntax_sub']
+                 'syntax_sub', 'not_text_root', 'not_text_sub']
 
 
 def total_runs(tier):
@@ -357,6 +357,12 @@ def build_world(plan, w):
     elif fault == 'syntax_sub':
         tp = os.path.join(w.home, suite_path(h, keys[0])) if keys else rootp
         append(tp, '[cases\nbroken header\n')
+    elif fault in ('not_text_root', 'not_text_sub'):
+        # a suite file whose bytes are not text in the encoding in use (the byte 0xE9 alone is not UTF-8): it cannot be
+        # read as a suite, whatever it was meant to say
+        tp = os.path.join(w.home, suite_path(h, keys[0])) if (keys and fault == 'not_text_sub') else rootp
+        with open(tp, 'ab') as f:
+            f.write(b'# caf\xe9\n')
     return fsfaults
 
 
@@ -460,7 +466,8 @@ def _probes(plan, hist):
     f = plan['struct_fault']
     if f:
         pr['invalid_' + {'twice': 'twice', 'twice_other_spelling': 'twice', 'cycle': 'cycle', 'self': 'cycle', 'missing_suite': 'missing_suite',
-                         'missing_case': 'missing_case', 'syntax_root': 'syntax', 'syntax_sub': 'syntax'}[f]] = 1
+                         'missing_case': 'missing_case', 'syntax_root': 'syntax', 'syntax_sub': 'syntax',
+                         'not_text_root': 'not_text', 'not_text_sub': 'not_text'}[f]] = 1
     else:
         for c in ex:
             pr['verdict_' + c['ident']] = 1
